@@ -48,6 +48,7 @@ func ruleC08(c *Check) {
 	c.respondNoHeight("C08.5")
 	c.startRules("C08")
 	c.queuePairs("C08")
+	c.contextDeleters("C08")
 }
 
 func ruleC09(c *Check) {
@@ -55,6 +56,8 @@ func ruleC09(c *Check) {
 	c.newBatchRules("C09", map[string]bool{"issue-while-not-running": true, "issue-after-pause": true, "payfail-no-pause": true})
 	c.expiredBatchRules("C09", map[string]bool{"continuation": true, "persist": true})
 	c.startRules("C09")
+	c.contextDeleters("C09")
+	c.callbackRules("C09")
 }
 
 func ruleC10(c *Check) {
@@ -62,6 +65,7 @@ func ruleC10(c *Check) {
 	c.expiredBatchRules("C10", map[string]bool{"continuation": true, "next-height": true, "dequeue-before-enqueue": true, "dequeue": true})
 	c.contextFieldRules("C10", map[string]bool{"update": true, "counter": true})
 	c.requestValidation("C10.3")
+	c.queueDeleters("C10")
 	c.newBatchRules("C10", map[string]bool{"issue-without-expiry": true})
 }
 
@@ -75,6 +79,7 @@ func ruleC11(c *Check) {
 	c.contextFieldRules("C11", map[string]bool{"update": true})
 	c.requestValidation("C11.5")
 	c.contextDeleters("C11")
+	c.queueDeleters("C11")
 	c.moduleServicePath("C11.6")
 	c.expiredBatchBinding("C11.3")
 }
@@ -87,6 +92,7 @@ func ruleC12(c *Check) {
 	c.respondRules("C12")
 	c.expiredBatchRules("C12", map[string]bool{"clean-order": true, "complete-at-expiry": true})
 	c.expiryScanGuard("C12.3")
+	c.startRules("C12")
 }
 
 func ruleC16(c *Check) {
@@ -101,6 +107,8 @@ func ruleC16(c *Check) {
 	c.startRules("C16")
 	c.moduleServicePath("C16.5")
 	c.reconstruction("C16.3")
+	c.contextDeleters("C16")
+	c.queueDeleters("C16")
 	c.keyGrammar("C16.2", map[string]bool{"0x13": true, "0x15": true, "0x16": true, "0x14": true})
 }
 
@@ -381,6 +389,25 @@ func (c *Check) callbackRules(prefix string) {
 			want = 1
 		}
 		c.req(n == want, prefix+".callback.state", unitConstruct(pff, fmt.Sprintf("state-callback:module=%v", mod)), pa.RetPos, fmt.Sprintf("pausing for insufficient balance invokes the state callback %d time(s) (module context=%v)", n, mod))
+		// the paused state is stored before the owning module is told about it (the callback may read or change the context)
+		iSet, iCb := -1, -1
+		for i, ev := range pa.Events {
+			if ev.Kind != EvCall {
+				continue
+			}
+			for _, e := range c.P.effectsOfEvent(pff, ev) {
+				if e.Kind == "store" && e.Op == "Set" && e.Family == "0x08" && iSet < 0 {
+					iSet = i
+				}
+				if e.Kind == "callback" && e.Op == "state" && iCb < 0 {
+					iCb = i
+				}
+			}
+		}
+		if iCb >= 0 {
+			c.req(iSet >= 0 && iSet < iCb, prefix+".callback.state-order", unitConstruct(pff, "store-before-state-callback"), pa.RetPos,
+				"the PAUSED context is stored before the state callback runs (a stale copy written afterwards would overwrite what the callback did)")
+		}
 	}
 }
 
